@@ -19,6 +19,7 @@ import (
 	"fmt"
 	"math/rand"
 	"os"
+	"os/exec"
 	"path/filepath"
 	"reflect"
 	"sort"
@@ -38,19 +39,20 @@ import (
 
 var lockedFlag = flag.Bool("locked", true, "model variant the replay uses: true = tree with the F18 repair (reorgMtx)")
 var fullFlag = flag.Bool("full", false, "no partial-order reduction in the exhaustive search")
+var childFlag = flag.String("child", "", "internal: k/n - run the jobs with index = k mod n and write results.json")
 
 // Final is the state after a run.
 type Final struct {
-	B     []int64  `json:"b"`               // block chain by height
-	BTip  [2]int64 `json:"btip"`            // BlockHeaders.ChainTip: id, height (-1: error)
-	Idx   []int64  `json:"idx"`             // HeightFromHash of every block of the universe (-1: unknown)
-	F     []int64  `json:"f"`               // filter file by position
-	FTip  []int64  `json:"ftip,omitempty"`  // RegFilterHeaders.ChainTip: token, height; empty: error
-	Mem   [2]int64 `json:"mem"`             // filterHeaderTip, filterHeaderTipHash
-	CRes  int64    `json:"cres"`            // writeCFHeadersMsg: 0 ok, 1 error
-	CErr  string   `json:"cerr,omitempty"`
-	BRes  int64    `json:"bres"`            // handleHeadersMsg: 0 returned, 2 panicked
-	BPanic string  `json:"bpanic,omitempty"`
+	B      []int64  `json:"b"`              // block chain by height
+	BTip   [2]int64 `json:"btip"`           // BlockHeaders.ChainTip: id, height (-1: error)
+	Idx    []int64  `json:"idx"`            // HeightFromHash of every block of the universe (-1: unknown)
+	F      []int64  `json:"f"`              // filter file by position
+	FTip   []int64  `json:"ftip,omitempty"` // RegFilterHeaders.ChainTip: token, height; empty: error
+	Mem    [2]int64 `json:"mem"`            // filterHeaderTip, filterHeaderTipHash
+	CRes   int64    `json:"cres"`           // writeCFHeadersMsg: 0 ok, 1 error
+	CErr   string   `json:"cerr,omitempty"`
+	BRes   int64    `json:"bres"` // handleHeadersMsg: 0 returned, 2 panicked
+	BPanic string   `json:"bpanic,omitempty"`
 }
 
 // Run is one executed schedule (hist-<id>.json).
@@ -252,13 +254,17 @@ func tick(i int, t0 time.Time) time.Time {
 	return now
 }
 
-// envBox keeps the opened stores of one configuration between the runs of a
-// job: after a run that left them well-formed they are put back into the
-// initial state through the store API (much cheaper than copying and opening
-// them again); after any other run they are thrown away.
+// envBox keeps one set of opened stores per worker for the whole run of the
+// harness: after a run that left them well-formed they are rolled back to the
+// genesis entries through the store API and re-initialised for the next run
+// (much cheaper than copying and opening an 8 MB index again); stores left
+// ill-formed by a run (tip key naming no stored block, file and index out of
+// step) are thrown away.
 type envBox struct {
-	dir string
-	e   *storeh.Env
+	base  string
+	dir   string
+	e     *storeh.Env
+	clean bool // holds only the genesis entries
 }
 
 func (b *envBox) drop() {
@@ -279,131 +285,93 @@ func noSync(e *storeh.Env) {
 	}
 }
 
-func (b *envBox) get(w *world, base string) *storeh.Env {
-	if b.e != nil {
-		return b.e
-	}
-	dirSeq.Lock()
-	dirSeq.n++
-	b.dir = filepath.Join(base, fmt.Sprintf("run%d", dirSeq.n))
-	dirSeq.Unlock()
-	os.RemoveAll(b.dir)
-	if err := storeh.CopyDir(w.tmpl, b.dir); err != nil {
-		panic(err)
-	}
-	e := &storeh.Env{Dir: b.dir}
-	if err := e.Open(); err != nil {
-		panic(err)
-	}
-	noSync(e)
-	b.e = e
-	return e
-}
-
-// restore puts well-formed stores back into the initial state of the
-// configuration; false: they have to be thrown away.
-func (b *envBox) restore(w *world, f *Final) bool {
-	e, cfg := b.e, w.cfg
-	if e == nil || f == nil || len(f.FTip) != 2 || f.BTip[1] < 0 {
+// toGenesis rolls well-formed stores back to their genesis entries.
+func (b *envBox) toGenesis() bool {
+	e := b.e
+	_, bt, err := e.BS.ChainTip()
+	if err != nil {
 		return false
 	}
-	nb, nf := len(f.B), len(f.F)
-	if nf < 1 || nf > nb || int(f.FTip[1]) != nf-1 || int(f.BTip[1]) != nb-1 {
+	_, ft, err := e.FS.ChainTip()
+	if err != nil || ft > bt {
 		return false
 	}
-	// the block chain must be old[0..c] followed by new-branch headers
-	c := 0
-	for c+1 < nb && c+1 <= cfg.T && f.B[c+1] == w.old[c+1].ID {
-		c++
+	// file lengths must agree with the tips
+	if _, err := e.BS.FetchHeaderByHeight(bt + 1); err == nil {
+		return false
 	}
-	for h := c + 1; h < nb; h++ {
-		j := h - cfg.Back - 1
-		if c != cfg.Back || j < 0 || j >= len(w.nw) || f.B[h] != w.nw[j].ID {
-			return false
-		}
+	if _, err := e.FS.FetchHeaderByHeight(ft + 1); err == nil {
+		return false
 	}
-	hashAt := func(h int) chainhash.Hash {
-		if h <= c {
-			return w.old[h].Hash
-		}
-		return w.nw[h-cfg.Back-1].Hash
-	}
-	for h := nb - 1; h > c; h-- {
-		if h <= nf-1 {
-			nt := hashAt(h - 1)
+	for h := bt; h > 0; h-- {
+		if h <= ft {
+			hd, err := e.BS.FetchHeaderByHeight(h - 1)
+			if err != nil {
+				return false
+			}
+			nt := hd.BlockHash()
 			if _, err := e.FS.RollbackLastBlock(&nt); err != nil {
 				return false
 			}
-			nf--
 		}
 		if _, err := e.BS.RollbackLastBlock(); err != nil {
 			return false
 		}
 	}
-	for nf-1 > cfg.F0 {
-		nt := w.old[nf-2].Hash
-		if _, err := e.FS.RollbackLastBlock(&nt); err != nil {
-			return false
-		}
-		nf--
-	}
-	// filter entries that are not the true ones of the old chain: give up
-	for h := 0; h < nf; h++ {
-		if f.F[h] != fbase+w.old[h].ID {
-			return false
-		}
-	}
-	if c < cfg.T {
-		var bhs []headerfs.BlockHeader
-		for h := c + 1; h <= cfg.T; h++ {
-			bhs = append(bhs, headerfs.BlockHeader{BlockHeader: w.old[h].Hdr, Height: uint32(h)})
-		}
-		if err := e.BS.WriteHeaders(bhs...); err != nil {
-			return false
-		}
-	}
-	if nf-1 < cfg.F0 {
-		var fhs []headerfs.FilterHeader
-		for h := nf; h <= cfg.F0; h++ {
-			fhs = append(fhs, headerfs.FilterHeader{FilterHash: w.old[h].FHdr})
-		}
-		fhs[len(fhs)-1].HeaderHash = w.old[cfg.F0].Hash
-		fhs[len(fhs)-1].Height = uint32(cfg.F0)
-		if err := e.FS.WriteHeaders(fhs...); err != nil {
-			return false
-		}
-	}
-	// check
-	hd, ht, err := e.BS.ChainTip()
-	if err != nil || int(ht) != cfg.T || hd.BlockHash() != w.old[cfg.T].Hash {
+	_, bt, err = e.BS.ChainTip()
+	if err != nil || bt != 0 {
 		return false
 	}
-	fh, fht, err := e.FS.ChainTip()
-	if err != nil || int(fht) != cfg.F0 || *fh != w.old[cfg.F0].FHdr {
-		return false
-	}
-	if _, err := e.BS.FetchHeaderByHeight(uint32(cfg.T + 1)); err == nil {
-		return false
-	}
-	if _, err := e.FS.FetchHeaderByHeight(uint32(cfg.F0 + 1)); err == nil {
-		return false
-	}
-	return true
+	_, ft, err = e.FS.ChainTip()
+	return err == nil && ft == 0
 }
 
-func runOnce(w *world, base string, ch chooser, box *envBox) (r Run) {
+// get returns stores holding the initial state of the configuration.
+func (b *envBox) get(w *world) *storeh.Env {
+	if b.e != nil && !b.clean {
+		if !b.toGenesis() {
+			b.drop()
+			atomic.AddInt64(&prof[4], 1)
+		}
+	}
+	if b.e == nil {
+		tmpl, err := storeh.Template(b.base)
+		if err != nil {
+			panic(err)
+		}
+		dirSeq.Lock()
+		dirSeq.n++
+		b.dir = filepath.Join(b.base, fmt.Sprintf("env%d", dirSeq.n))
+		dirSeq.Unlock()
+		os.RemoveAll(b.dir)
+		if err := storeh.CopyDir(tmpl, b.dir); err != nil {
+			panic(err)
+		}
+		e := &storeh.Env{Dir: b.dir}
+		if err := e.Open(); err != nil {
+			panic(err)
+		}
+		noSync(e)
+		b.e = e
+	}
+	b.clean = false
+	if err := w.initStores(b.e); err != nil {
+		panic(err)
+	}
+	return b.e
+}
+
+func runOnce(w *world, ch chooser, box *envBox) (r Run) {
 	t0 := time.Now()
 	defer func() { tick(5, t0) }()
 	r.Cfg = w.cfg
 	r.Locked = *lockedFlag
-	e := box.get(w, base)
+	e := box.get(w)
 	defer func() {
-		t2 := time.Now()
-		if r.Err != "" || !box.restore(w, r.Final) {
+		if r.Err != "" {
 			box.drop()
 			atomic.AddInt64(&prof[4], 1)
 		}
-		tick(3, t2)
 	}()
 	t1 := tick(0, t0)
 
@@ -651,9 +619,11 @@ func main() {
 			jobs = append(jobs, job{cfg: r.Cfg, origin: "corpus", sched: r.Sched})
 		}
 		small := smallConfigs()
-		budget, nrand, nbig := 40, 2, 40
+		// quick: a few schedules of the search and a few random ones per
+		// small configuration; thorough: the whole search
+		budget, nrand, nbig := 5, 5, 30
 		if a.Tier == "thorough" {
-			budget, nrand, nbig = 1 << 30, 20, 1500
+			budget, nrand, nbig = 1<<30, 20, 1500
 		}
 		for i, cf := range small {
 			jobs = append(jobs, job{cfg: cf, origin: "dfs", budget: budget, nrand: nrand, rseed: a.Seed*7919 + int64(i)})
@@ -679,72 +649,171 @@ func main() {
 	}
 
 	// worlds are shared between jobs with the same configuration
+	type worldSlot struct {
+		once sync.Once
+		w    *world
+	}
+	slots := map[string]*worldSlot{}
 	worlds := map[string]*world{}
 	var wmu sync.Mutex
+	if _, err := storeh.Template(base); err != nil {
+		panic(err)
+	}
 	getWorld := func(cf Cfg) *world {
 		wmu.Lock()
-		defer wmu.Unlock()
-		if w, ok := worlds[cf.key()]; ok {
-			return w
+		sl := slots[cf.key()]
+		if sl == nil {
+			sl = &worldSlot{}
+			slots[cf.key()] = sl
 		}
-		w, err := newWorld(cf, base, gf)
-		if err != nil {
-			panic(err)
-		}
-		worlds[cf.key()] = w
-		return w
+		wmu.Unlock()
+		sl.once.Do(func() {
+			w, err := newWorld(cf, gf)
+			if err != nil {
+				panic(err)
+			}
+			sl.w = w
+			wmu.Lock()
+			worlds[cf.key()] = w
+			wmu.Unlock()
+		})
+		return sl.w
 	}
 
 	results := make([][]Run, len(jobs))
 	exhaustive := make([]bool, len(jobs))
-	var wg sync.WaitGroup
-	sem := make(chan struct{}, a.Workers)
-	for ji := range jobs {
-		wg.Add(1)
-		sem <- struct{}{}
-		go func(ji int) {
-			defer wg.Done()
-			defer func() { <-sem }()
-			j := jobs[ji]
-			w := getWorld(j.cfg)
-			box := &envBox{}
-			defer box.drop()
-			switch j.origin {
-			case "corpus", "replay":
-				r := runOnce(w, base, &listChooser{j.sched}, box)
-				r.Origin = j.origin
-				results[ji] = append(results[ji], r)
-			default:
-				if j.budget > 0 {
-					d := &dfsChooser{full: *fullFlag}
-					n := 0
-					for {
-						r := runOnce(w, base, d, box)
-						r.Origin = "dfs"
+	mine := func(ji int) bool { return true }
+	nproc := a.Workers
+	if nproc > len(jobs) {
+		nproc = len(jobs)
+	}
+	if *childFlag != "" {
+		var k, n int
+		fmt.Sscanf(*childFlag, "%d/%d", &k, &n)
+		mine = func(ji int) bool { return ji%n == k }
+		a.Workers = 1
+	}
+	if *childFlag == "" && nproc > 1 {
+		// One process per worker: the parked-state detection dumps all
+		// goroutine stacks, which stops the world of the whole process.
+		type childOut struct {
+			Results    map[int][]Run `json:"results"`
+			Exhaustive map[int]bool  `json:"exhaustive"`
+		}
+		var cwg sync.WaitGroup
+		cerr := make([]string, nproc)
+		for k := 0; k < nproc; k++ {
+			cwg.Add(1)
+			go func(k int) {
+				defer cwg.Done()
+				cdir := filepath.Join(a.Out, fmt.Sprintf("w%d", k))
+				args := []string{"-child", fmt.Sprintf("%d/%d", k, nproc), fmt.Sprintf("-locked=%v", *lockedFlag),
+					fmt.Sprintf("-full=%v", *fullFlag), "-seed", fmt.Sprint(a.Seed), "-tier", a.Tier, "-out", cdir}
+				if a.Replay != "" {
+					args = append(args, "-replay", a.Replay)
+				}
+				cmd := exec.Command(os.Args[0], args...)
+				cmd.Env = append(os.Environ(), "GOMAXPROCS=2")
+				out, err := cmd.CombinedOutput()
+				if err != nil {
+					cerr[k] = fmt.Sprintf("worker %d: %v\n%s", k, err, out)
+					return
+				}
+				if os.Getenv("C03CONC_PROF") != "" {
+					os.Stderr.Write(out)
+				}
+				var co childOut
+				c.ReadJSON(filepath.Join(cdir, "results.json"), &co)
+				for ji, rs := range co.Results {
+					results[ji] = rs
+				}
+				for ji, ex := range co.Exhaustive {
+					exhaustive[ji] = ex
+				}
+				os.RemoveAll(cdir)
+			}(k)
+		}
+		cwg.Wait()
+		for _, e := range cerr {
+			if e != "" {
+				fmt.Fprintln(os.Stderr, e)
+				os.Exit(1)
+			}
+		}
+	} else {
+		var wg sync.WaitGroup
+		jobCh := make(chan int)
+		for wk := 0; wk < a.Workers; wk++ {
+			wg.Add(1)
+			go func() {
+				defer wg.Done()
+				box := &envBox{base: base}
+				defer box.drop()
+				for ji := range jobCh {
+					j := jobs[ji]
+					w := getWorld(j.cfg)
+					switch j.origin {
+					case "corpus", "replay":
+						r := runOnce(w, &listChooser{j.sched}, box)
+						r.Origin = j.origin
 						results[ji] = append(results[ji], r)
-						n++
-						if r.Err != "" {
-							break
+					default:
+						if j.budget > 0 {
+							d := &dfsChooser{full: *fullFlag}
+							n := 0
+							for {
+								r := runOnce(w, d, box)
+								r.Origin = "dfs"
+								results[ji] = append(results[ji], r)
+								n++
+								if r.Err != "" {
+									break
+								}
+								if !d.next() {
+									exhaustive[ji] = true
+									break
+								}
+								if n >= j.budget {
+									break
+								}
+							}
 						}
-						if !d.next() {
-							exhaustive[ji] = true
-							break
-						}
-						if n >= j.budget {
-							break
+						rr := rand.New(rand.NewSource(j.rseed))
+						for i := 0; i < j.nrand; i++ {
+							r := runOnce(w, &randChooser{rr}, box)
+							r.Origin = "random"
+							results[ji] = append(results[ji], r)
 						}
 					}
 				}
-				rr := rand.New(rand.NewSource(j.rseed))
-				for i := 0; i < j.nrand; i++ {
-					r := runOnce(w, base, &randChooser{rr}, box)
-					r.Origin = "random"
-					results[ji] = append(results[ji], r)
-				}
+			}()
+		}
+		for ji := range jobs {
+			if mine(ji) {
+				jobCh <- ji
 			}
-		}(ji)
+		}
+		close(jobCh)
+		wg.Wait()
 	}
-	wg.Wait()
+	if *childFlag != "" {
+		co := struct {
+			Results    map[int][]Run `json:"results"`
+			Exhaustive map[int]bool  `json:"exhaustive"`
+		}{map[int][]Run{}, map[int]bool{}}
+		for ji := range jobs {
+			if mine(ji) {
+				co.Results[ji] = results[ji]
+				co.Exhaustive[ji] = exhaustive[ji]
+			}
+		}
+		c.WriteJSON(filepath.Join(a.Out, "results.json"), co)
+		if os.Getenv("C03CONC_PROF") != "" {
+			fmt.Fprintf(os.Stderr, "prof (ms): stores %d setup %d steps %d (of which stack dumps %d) (envs dropped %d) total %d\n",
+				prof[0]/1e6, prof[1]/1e6, prof[2]/1e6, prof[3]/1e6, prof[4], prof[5]/1e6)
+		}
+		return
+	}
 
 	// ids, files
 	id := 0
@@ -804,7 +873,7 @@ func main() {
 			rep.Histogram[fmt.Sprintf("depth:%d", min(r.Cfg.T-r.Cfg.Back, 4))]++
 			k := r.Cfg.key()
 			if groups[k] == nil {
-				groups[k] = &grp{w: worlds[k]}
+				groups[k] = &grp{w: getWorld(r.Cfg)}
 				order = append(order, k)
 			}
 			groups[k].runs = append(groups[k].runs, r)
@@ -846,7 +915,7 @@ func main() {
 	rep.Evaluations = id
 	rep.DistinctNontrivial = len(distinct)
 	rep.Exhaustive = allExh && a.Replay == ""
-	rep.Rule = "runs of one real writeCFHeadersMsg against one real handleHeadersMsg (reorganisation to a heavier branch) on a real blockManager over real header stores under a controlled scheduler: every store call, in-memory tip update and notification send of the two goroutines is one step released by the harness; corpus schedules (corpus/C03/f18-*.json), depth-first search over all interleavings up to commutation of independent steps for old chain 5, batch 1-3, reorg depth 1-3, every filter tip (quick tier: at most 40 schedules per configuration, thorough: all), random schedules for chains up to 12, batches up to 6, depths up to 6; non-trivial = the run contains a filter-header write and a block rollback; distinct = distinct (configuration, step sequence)"
+	rep.Rule = "runs of one real writeCFHeadersMsg against one real handleHeadersMsg (reorganisation to a heavier branch) on a real blockManager over real header stores under a controlled scheduler: every store call, in-memory tip update and notification send of the two goroutines is one step released by the harness; corpus schedules (corpus/C03/f18-*.json), depth-first search over all interleavings up to commutation of independent steps for old chain 5, batch 1-3, reorg depth 1-3, every filter tip (quick tier: the first 5 schedules of the search and 5 random ones per configuration, thorough: all), random schedules for chains up to 12, batches up to 6, depths up to 6; non-trivial = the run contains a filter-header write and a block rollback; distinct = distinct (configuration, step sequence)"
 	for ji := range results {
 		if len(results[ji]) > 0 && len(rep.Samples) < 3 {
 			rep.Samples = append(rep.Samples, results[ji][0])
@@ -854,7 +923,7 @@ func main() {
 	}
 	rep.Write(a.Out)
 	if os.Getenv("C03CONC_PROF") != "" {
-		fmt.Fprintf(os.Stderr, "prof (ms, summed over workers): open %d setup %d steps %d restore %d (envs dropped %d) total %d\n",
+		fmt.Fprintf(os.Stderr, "prof (ms, summed over workers): stores %d setup %d steps %d (of which stack dumps %d) (envs dropped %d) total %d\n",
 			prof[0]/1e6, prof[1]/1e6, prof[2]/1e6, prof[3]/1e6, prof[4], prof[5]/1e6)
 	}
 }
